@@ -22,3 +22,15 @@ Proof. reflexivity. Qed.
 Lemma gen_wiring_Slice_zscores :
   wsrc_Slice_zscores = Some (w_matrix_of "zscores").
 Proof. reflexivity. Qed.
+
+(* SecondOrderMeasures.pvalues *)
+Lemma gen_wiring_SecondOrderMeasures_pvalues :
+  wsrc_SecondOrderMeasures_pvalues = Some (WCall (WGlobal "_Pvalues") [WSelf "_dimensions"; WVar
+      "self"; WSelf "_cube_measures"] []).
+Proof. reflexivity. Qed.
+
+(* SecondOrderMeasures.zscores *)
+Lemma gen_wiring_SecondOrderMeasures_zscores :
+  wsrc_SecondOrderMeasures_zscores = Some (WCall (WGlobal "_Zscores") [WSelf "_dimensions"; WVar
+      "self"; WSelf "_cube_measures"] []).
+Proof. reflexivity. Qed.
